@@ -116,14 +116,35 @@ def holds_at(c, xval, closed=False):
     return {'<': s < 0, '<=': s <= 0, '>': s > 0, '>=': s >= 0, '==': s == 0, '!=': s != 0}[r]
 
 
+def holds_tree(c, xval, closed=False):
+    """holds_at for conjunctions / disjunctions of comparisons (short-circuit tests merged into one branch)"""
+    if isinstance(c, alg.BoolOp):
+        vals = [holds_tree(a, xval, closed) for a in c.args]
+        if c.op == 'and':
+            return False if any(v is False for v in vals) else (None if any(v is None for v in vals) else True)
+        if c.op == 'or':
+            return True if any(v is True for v in vals) else (None if any(v is None for v in vals) else False)
+        raise Unsupported('path condition %r' % (c,))
+    if not isinstance(c, alg.Cond):
+        raise Unsupported('path condition %r' % (c,))
+    return holds_at(c, xval, closed)
+
+
+def cond_atoms(c):
+    if isinstance(c, alg.BoolOp):
+        out = []
+        for a in c.args:
+            out += cond_atoms(a)
+        return out
+    return [c] if isinstance(c, alg.Cond) else []
+
+
 def leaf_at(leaves, xval, closed=False):
     out = []
     for lf in leaves:
         ok = True
         for c in lf.pc:
-            if not isinstance(c, alg.Cond):
-                raise Unsupported('path condition %r' % (c,))
-            h = holds_at(c, xval, closed)
+            h = holds_tree(c, xval, closed)
             if h is None:
                 raise Unsupported('cannot decide %s at x=%s under the parameter ordering' % (c, xval))
             if not h:
@@ -137,7 +158,7 @@ def leaf_at(leaves, xval, closed=False):
 def thresholds(leaves):
     ts = []
     for lf in leaves:
-        for c in lf.pc:
+        for c in [a for c0 in lf.pc for a in cond_atoms(c0)]:
             if isinstance(c, alg.Cond):
                 a_, b_ = sp.sympify(c.a), sp.sympify(c.b)
                 # solve a - b == 0 for x (linear)
@@ -178,12 +199,17 @@ def core_value(rep, fn, leaves, loc):
                 taken = []
                 for lf in leaves:
                     ok = True
-                    for c in lf.pc:
+                    def ev(c):
+                        if isinstance(c, alg.BoolOp):
+                            vals = [ev(a) for a in c.args]
+                            return all(vals) if c.op == 'and' else any(vals)
                         d = sp.simplify((sp.sympify(c.a) - sp.sympify(c.b)).subs(X, cval).subs(sub))
                         sg = sign_of(d)
                         if sg is None:
                             raise Unsupported('cannot decide %s at the core point %s with %s = 0' % (c, cname, ', '.join(map(str, zero))))
-                        if not {'<': sg < 0, '<=': sg <= 0, '>': sg > 0, '>=': sg >= 0, '==': sg == 0, '!=': sg != 0}[c.rel()]:
+                        return {'<': sg < 0, '<=': sg <= 0, '>': sg > 0, '>=': sg >= 0, '==': sg == 0, '!=': sg != 0}[c.rel()]
+                    for c in lf.pc:
+                        if not ev(c):
                             ok = False
                             break
                     if ok:
@@ -276,8 +302,14 @@ def piecewise(rep, fn, lk, pnames, pvals, table):
             probs.append('on (%s, %s) the slope sign is %s, expected %s' % (lo, hi, sg, kind))
     # continuity: every breakpoint, all closed-region leaves agree
     ncont = 0
-    for t in ts:
-        ls = leaf_at(leaves, t, closed=True)
+    for k_, t in enumerate(ts):
+        # the pieces that meet at t: the one valid just left of it, the one valid just right of it and the one valid at t itself
+        # (membership decided at the midpoints of the neighbouring elementary intervals - exact also for disjunctive path conditions)
+        ls = []
+        for xv in (cells[k_][2], t, cells[k_ + 1][2]):
+            for l in leaf_at(leaves, xv):
+                if not any(l is m_ for m_ in ls):
+                    ls.append(l)
         vals = [sp.simplify(sp.sympify(l.ret).subs(X, t)) for l in ls]
         if len(ls) < 2:
             probs.append('breakpoint %s is covered by %d closed regions' % (t, len(ls)))
